@@ -61,9 +61,6 @@ LT(n) == "LT" \o ToString(n)
 LenInitKinds == {LI(n) : n \in LenAll}
 LenTargetKinds == {LT(n) : n \in LenAll}
 LenKindsAll == LenInitKinds \cup LenTargetKinds
-BaseKind(k) == IF k \in LenInitKinds THEN "TT4A" ELSE IF k \in LenTargetKinds THEN "LDEP" ELSE k
-Mode(k) == IF k \in TargetKinds \cup LenTargetKinds THEN "target" ELSE IF k \in SenseKinds THEN "sense"
-           ELSE IF k \in ListenKinds THEN "listen" ELSE IF k \in CloseKinds THEN "closed" ELSE "initiator"
 
 ExKinds0(d) ==
   CASE d = "pn531"  -> (InitKinds \ {"TT1", "TT1CIU", "TT4B"}) \cup TargetKinds
@@ -72,9 +69,68 @@ ExKinds0(d) ==
     [] d = "acr122" -> InitKinds \ {"TT1", "TT1CIU"}
     [] d = "rcs380" -> (InitKinds \ {"TT1CIU", "DEPACT"}) \cup TargetKinds
     [] d = "udp"    -> (InitKinds \ {"TT1CIU", "DEPACT"}) \cup {"LTT2", "LTT4", "LTT3", "LDEP"}
+
+\* TARGET VARIANTS.  exchange() talks to the target that sense() / listen() activated, and the drivers' exchange code
+\* looks at that target: pn53x.Device._send_cmd_recv_rsp maps brty_send / brty_recv to the CIU Tx/RxSpeed and
+\* Tx/RxFraming register fields and TxAuto.Force100ASK, takes sens_res / sensf_res / atr_res for "active mode",
+\* rid_res for "Type 1 Tag" and SEL_RES bits 6,5 = 00 for "Type 2 Tag, check CRC_A here"; rcs380 looks its InSetRF
+\* settings up by bit rate, its InSetProtocol settings by technology, and takes the Type 2 path for 106A with
+\* SEL_RES bits 6,5 = 00 only; udp writes the bit rate into every datagram.  So the activated target is a dimension
+\* of the exchange: a variant [b, r, a] is the exchange of BASE kind b (what is exchanged, which host commands) with
+\* a target of bit rate / technology r and attribute class a
+\*     a = SEL_RES value (hex) for the Type A kinds: 00 / 08 / 18 Type 2 and MIFARE Classic 1K / 4K (bits 6,5 = 00),
+\*         20 Type 4A, 40 NFC-DEP, 60 both (Type 4A chosen = no atr_res, NFC-DEP chosen = atr_res)
+\*     a = "psl": the NFC-DEP target was discovered at 106A and switched to r by PSL_REQ (nfc.dep.Initiator.activate
+\*         assigns target.brty): SENS_RES / SEL_RES are still there, the technology is F
+\* over EVERYTHING the driver's sense_tta / sense_ttb / sense_ttf / sense_dep accept (SenseCovered below ties this to
+\* the sense operations whose documented result is a target).  The base kinds are the variants DefVar(b); every
+\* other variant is a kind of its own, named "b@r" or "b@r/a".  A variant never changes the class of a result:
+\* fault-free it is Data, with a fault the allowed outcomes are those of the base kind.
+RatesA(d) == IF d \in {"rcs380", "udp"} THEN {"106A", "212A", "424A"} ELSE {"106A"}
+RatesB(d) == IF d = "pn531" THEN {} ELSE IF d = "pn533" THEN {"106B", "212B", "424B", "848B"}
+             ELSE IF d \in {"rcs380", "udp"} THEN {"106B", "212B", "424B"} ELSE {"106B"}
+RatesF    == {"212F", "424F"}
+RatesAct(d) == IF d \in Pn53xFam THEN {"106A", "212F", "424F"} ELSE {}       \* sense_dep: active communication mode
+Tech(r) == IF r \in {"106A", "212A", "424A"} THEN "A" ELSE IF r \in RatesF THEN "F" ELSE "B"
+Var(b, r, a) == [b |-> b, r |-> r, a |-> a]
+VK(v) == v.b \o "@" \o v.r \o (IF v.a = "" THEN "" ELSE "/" \o v.a)
+DefVar(b) == CASE b = "TT2" -> Var(b, "106A", "00") [] b = "TT4A" -> Var(b, "106A", "20")
+               [] b \in {"DEPA", "LDEP", "LDEPRX"} -> Var(b, "106A", "40")
+               [] b = "LTT2" -> Var(b, "106A", "00") [] b = "LTT4" -> Var(b, "106A", "20")
+               [] b = "TT4B" -> Var(b, "106B", "") [] b \in {"TT3", "LTT3"} -> Var(b, "212F", "")
+               [] b \in {"DEPF", "DEPACT"} -> Var(b, "424F", "") [] OTHER -> Var(b, "106A", "")
+Vars(d) ==
+  LET has(b) == b \in ExKinds0(d)
+      when(b, S) == IF has(b) THEN S ELSE {} IN
+       {Var("TT1", r, "") : r \in when("TT1", RatesA(d))}
+  \cup {Var("TT1CIU", r, "") : r \in when("TT1CIU", {"106A"})}
+  \cup {Var("TT2", r, "00") : r \in RatesA(d)} \cup {Var("TT2", "106A", a) : a \in {"08", "18"}}
+  \cup {Var("TT4A", r, "20") : r \in RatesA(d)} \cup {Var("TT4A", "106A", "60")}
+  \cup {Var("DEPA", r, "40") : r \in RatesA(d)} \cup {Var("DEPA", "106A", "60")}
+  \cup {Var("DEPA", r, "psl") : r \in RatesF}
+  \cup {Var("TT4B", r, "") : r \in RatesB(d)}
+  \cup {Var("TT3", r, "") : r \in RatesF} \cup {Var("DEPF", r, "") : r \in RatesF}
+  \cup {Var("DEPACT", r, "") : r \in when("DEPACT", RatesAct(d))}
+  \* acting as target: Type 3 Tag emulation at both rates, NFC-DEP target activated at 106A / 212F / 424F
+  \cup {Var("LTT3", r, "") : r \in when("LTT3", RatesF)}
+  \cup {Var("LDEP", r, IF r = "106A" THEN "40" ELSE "") : r \in when("LDEP", {"106A", "212F", "424F"})}
+  \cup {DefVar(b) : b \in ExKinds0(d) \cap {"LTT2", "LTT4", "LDEPRX"}}
+NewVars(d) == {v \in Vars(d) : v # DefVar(v.b)}
+VarKinds(d) == {VK(v) : v \in NewVars(d)}
+AllNewVars == UNION {NewVars(d) : d \in Drivers}
+VarKindsAll == {VK(v) : v \in AllNewVars}
+VarOf == [k \in VarKindsAll |-> CHOOSE v \in AllNewVars : VK(v) = k]
+
+BaseKind(k) == IF k \in LenInitKinds THEN "TT4A" ELSE IF k \in LenTargetKinds THEN "LDEP"
+               ELSE IF k \in VarKindsAll THEN VarOf[k].b ELSE k
+\* bit rate / technology of the target of an exchange kind
+BrtyOf(k) == IF k \in VarKindsAll THEN VarOf[k].r ELSE DefVar(BaseKind(k)).r
+Mode(k) == IF BaseKind(k) \in TargetKinds THEN "target" ELSE IF k \in SenseKinds THEN "sense"
+           ELSE IF k \in ListenKinds THEN "listen" ELSE IF k \in CloseKinds THEN "closed" ELSE "initiator"
+
 \* every driver is asked for every operation: what it does not support must say so as documented
 LenKinds(d) == {LI(n) : n \in LenVals(d)} \cup (IF "LDEP" \in ExKinds0(d) THEN {LT(n) : n \in LenVals(d)} ELSE {})
-ExKinds(d) == ExKinds0(d) \cup LenKinds(d)
+ExKinds(d) == ExKinds0(d) \cup LenKinds(d) \cup VarKinds(d)
 Kinds(d) == ExKinds(d) \cup OpKinds
 
 Rep(x, n) == [i \in 1..n |-> x]
@@ -85,7 +141,8 @@ ExCmds(d, kk) ==
   IF d = "udp" THEN <<"sendto", "recvfrom">>
   ELSE IF d = "rcs380" THEN
        IF k \in TargetKinds THEN <<"TgCommRF">>
-       ELSE IF k \in {"TT3", "DEPF"} THEN <<"InSetRF", "InSetProtocol", "InCommRF">>
+       \* Type F needs no settings beyond the defaults: the second InSetProtocol has nothing to send
+       ELSE IF Tech(BrtyOf(kk)) = "F" THEN <<"InSetRF", "InSetProtocol", "InCommRF">>
        ELSE <<"InSetRF", "InSetProtocol", "InSetProtocol", "InCommRF">>
   ELSE \* PN53x family: pn53x.Device.send_cmd_recv_rsp / send_rsp_recv_cmd
        LET pre == <<"ReadRegister", "WriteRegister", "RFConfiguration">> IN
@@ -202,6 +259,20 @@ UdpOpCmds(k) ==
 OpCmds(d, k) == IF k \in CloseKinds THEN <<>> ELSE IF d \in Pn53xFam THEN Pn53xOpCmds(d, k) ELSE IF d = "rcs380" THEN Rcs380OpCmds(k) ELSE UdpOpCmds(k)
 
 Cmds(d, k) == IF k \in OpKinds THEN OpCmds(d, k) ELSE ExCmds(d, k)
+
+\* The target variants are closed under discovery: whatever target a sense operation is documented to return --
+\* technology, bit rate and class -- the driver's exchange kinds contain the exchange with that target.
+SenseBrty(k) == CASE k = "STTA212" -> "212A"
+                  [] k \in {"STTB106", "STTB212", "STTB424", "STTB848"} ->
+                       (CASE k = "STTB106" -> "106B" [] k = "STTB212" -> "212B" [] k = "STTB424" -> "424B" [] OTHER -> "848B")
+                  [] k \in {"STTF212", "SDEP212"} -> "212F" [] k \in {"STTF424", "SDEP424"} -> "424F"
+                  [] OTHER -> "106A"
+SenseBases(k) == CASE k \in {"STTA2", "STTA212"} -> {"TT2"} [] k = "STTA4" -> {"TT4A"} [] k = "STTADEP" -> {"DEPA"}
+                   [] k = "STTA1" -> {"TT1"} [] k \in SttbKinds -> {"TT4B"} [] k \in SttfKinds -> {"TT3", "DEPF"}
+                   [] k \in SdepKinds -> {"DEPACT"} [] OTHER -> {}
+SenseCovered == \A d \in Drivers : \A k \in SenseKinds : Expect(d, k) = "Target" =>
+                  \A b \in SenseBases(k) : \E x \in ExKinds(d) : BaseKind(x) = b /\ BrtyOf(x) = SenseBrty(k)
+ASSUME SenseCovered
 NCmd(d, k) == Len(Cmds(d, k))
 IsFinal(d, k, at) == at = NCmd(d, k)
 
@@ -314,8 +385,9 @@ Case(d, k, at, f) == [d |-> d, k |-> k, at |-> at, f |-> f]
 SliceCases(d, k, tier) ==
   UNION {{Case(d, k, at, f) : f \in (IF k \in OpKinds THEN OpFaults(d, Cmds(d, k)[at], tier)
                                       ELSE SliceFaults(d, Cmds(d, k)[at], IsFinal(d, k, at),
-                                                       \* length kinds: the small fault sample at every command
-                                                       IF k \in LenKindsAll THEN "reach" ELSE tier))}
+                                                       \* length kinds and target variants: the small fault
+                                                       \* sample at every command
+                                                       IF k \in LenKindsAll \cup VarKindsAll THEN "reach" ELSE tier))}
          : at \in 1..NCmd(d, k)}
 AllCases(tier) == UNION {UNION {SliceCases(d, k, tier) \cup {Case(d, k, 0, NoFault)} : k \in Kinds(d)}
                          : d \in Drivers}
@@ -489,4 +561,7 @@ W_NoData == ~(Done /\ o = "NoData")
 W_Target == ~(Done /\ o = "Target" /\ c.at > 0)
 W_NoTarget == ~(Done /\ o = "NoTarget" /\ c.at > 0)
 W_Unsupported == ~(Done /\ o = "Unsupported")
+\* a target variant (other bit rate / technology / class than the base kind's) is exchanged with, with and without luck
+W_VarData == ~(Done /\ c.k \in VarKindsAll /\ BrtyOf(c.k) = "848B" /\ o = "Data" /\ c.at > 0)
+W_VarTimeout == ~(Done /\ c.k \in VarKindsAll /\ VarOf[c.k].a = "psl" /\ o = "Timeout")
 =============================================================================
